@@ -283,6 +283,8 @@ def run(ctx):
                   "branch and its label lie on the same side of every save/restore event",
                   "the generated branch to %s crosses %s: the generated code skips one half of the pair and still runs the other "
                   "(e.g. ldmxcsr from a slot that was never written, or an unbalanced stack adjustment)" % (lab, "; ".join(sorted(set(bad)))), line=j.line)
+    d6_used_recorded(db, rep)
+
     # MMX target provides clear_emms and it emits emms
     slot = None
     for t in db.tus.values():
@@ -394,3 +396,67 @@ def _path_avoiding(f, start, avoid_ids, target_ids):
             seen.add(key)
             st.append((s, tuple(sorted(env.items())), armed))
     return None
+
+
+
+def d6_used_recorded(db, rep):
+    """D6: the prologue saves a callee-saved register only if compiler->used_regs[] says it is used, so every register the
+    allocator hands out must end up recorded there.  Two designs satisfy this and both are accepted:
+      (a) the allocator records the register on every successful return, or
+      (b) some function records used_regs[X->F] for every field F that ever receives an allocator result."""
+    from flow import reaching_defs
+    al = db.func("orc_compiler_allocate_register", "orccompiler")
+    rep.saw(al)
+
+    def marks(f):
+        out = []
+        for x in f.walk():
+            if x.k == "BinaryOperator" and x.op == "=" and strip_casts(x.c[0]) is not None and strip_casts(x.c[0]).k == "ArraySubscriptExpr":
+                sub = strip_casts(x.c[0])
+                if (access_path(sub.c[0]) or "").endswith("->used_regs") and strip_casts(x.c[1]) is not None and strip_casts(x.c[1]).v not in (0, None):
+                    out.append((x, strip_casts(sub.c[1])))
+        return out
+    rets = [r for r in al.walk() if r.k == "ReturnStmt" and r.c and r.c[0] is not None and strip_casts(r.c[0]).v is None]
+    if not rets:
+        raise AnalysisBroken("orc_compiler_allocate_register: no successful return found")
+    amarks = marks(al)
+    uncovered = []
+    for r in rets:
+        nm = access_path(strip_casts(r.c[0]))
+        if not any(access_path(ix) == nm and al.dominates(st, r) for st, ix in amarks):
+            uncovered.append(r)
+    if not uncovered:
+        rep.ok("D6-USED-RECORDED", where(al), "at-hand-out", "all %d successful returns of the allocator are preceded by used_regs[reg] = 1" % len(rets))
+        return
+    # design (b): every sink field is marked somewhere
+    sinks = {}
+    marked = set()
+    for f in db.all_functions():
+        if not f.relfile.startswith("orc/"):
+            continue
+        for st, ix in marks(f):
+            if ix is not None and ix.k == "MemberExpr":
+                marked.add(ix.name)
+        for c in f.calls("orc_compiler_allocate_register"):
+            p = c.parent
+            while p is not None and p.k in ("CStyleCastExpr", "ParenExpr", "ImplicitCastExpr"):
+                p = p.parent
+            if p is None or not (p.k == "BinaryOperator" and p.op == "=") and p.k != "VarDecl":
+                continue
+            l = strip_casts(p.c[0]) if p.k == "BinaryOperator" else None
+            if l is not None and l.k == "MemberExpr":
+                sinks.setdefault(l.name, (f, c))
+            else:
+                nm = l.name if l is not None and l.k == "DeclRefExpr" else (p.name if p.k == "VarDecl" else None)
+                for x in f.walk():          # a local result: the fields it is copied to
+                    if nm and x.k == "BinaryOperator" and x.op == "=" and access_path(x.c[1]) == nm and strip_casts(x.c[0]).k == "MemberExpr":
+                        sinks.setdefault(strip_casts(x.c[0]).name, (f, c))
+    if len(sinks) < 5:
+        raise AnalysisBroken("only %d destinations of allocator results found" % len(sinks))
+    missing = sorted(k for k in sinks if k not in marked)
+    f0, c0 = sinks[missing[0]] if missing else (al, rets[0])
+    rep.check(not missing, "D6-USED-RECORDED", where(f0), "derived-marking",
+              "the allocator does not record hand-outs itself; used_regs[] is derived afterwards and covers all %d destinations of allocator results (%s)" % (len(sinks), ", ".join(sorted(sinks))),
+              "orc_compiler_allocate_register returns a register without recording it in used_regs[] (line %s), and the code that derives used_regs[] afterwards "
+              "never marks the register kept in `%s` (assigned from the allocator in %s): if that is a callee-saved register the prologue does not save it and the "
+              "caller's value is destroyed" % (uncovered[0].line, "`, `".join(missing), f0.name), line=c0.line)
